@@ -371,6 +371,13 @@ def op_connect(run):
         cons.append(s.shapes.add_connector(MSO_CONNECTOR.STRAIGHT, 0, 0, 914400, 914400))
     c = r.choice(cons)
     order = r.choice(["end", "begin", "end-begin", "begin-end"])
+    if r.random() < 0.15:
+        # a connection-site index no xsd:unsignedInt can hold: a documented rejection (ValueError), after which the connector must
+        # be as valid as it was
+        side = order.split("-")[0]
+        run.acc.count("connect_with_unrepresentable_site_index")
+        (c.end_connect if side == "end" else c.begin_connect)(r.choice(shs), r.choice([-1, 2 ** 32]))
+        return side + "-bad-index-accepted"
     for side in order.split("-"):
         (c.end_connect if side == "end" else c.begin_connect)(r.choice(shs), r.randrange(4))
     run.acc.hit("connector.connect:" + order)
@@ -1182,7 +1189,7 @@ ALL_OPS = {
     "add_picture_notimage": (op_add_picture_notimage, _pil_exc()),
     "add_connector": (op_add_connector, NONE),
     "add_group": (op_add_group, NONE),
-    "connect": (op_connect, NONE),
+    "connect": (op_connect, (VE,)),
     "add_freeform": (op_add_freeform, NONE),
     "add_chart": (op_add_chart, NONE),
     "add_table": (op_add_table, NONE),
